@@ -95,7 +95,7 @@ class TraceModelCheck:
             events += r["events"]
             for k in self.count_keys:
                 totals[k] = totals.get(k, 0) + st.get(k, 0)
-            samples += st.get("samples", [])[:2]
+            samples += (st.get("samples") or [])[:2]
             for k, v in r["deviations"].items():
                 used[k] = used.get(k, 0) + v
             for k, v in r["examples"].items():
